@@ -193,6 +193,30 @@ func (u *unb) do(m Move) string {
 			u.sndClosed = true
 			close(u.snd)
 		}
+	case "dclose":
+		// the sender itself (no helper goroutine, no yield): up to M sends that complete into the send buffer, then close.
+		// Followed by a cancel in the same batch the pump wakes up with a closed, non-empty send buffer and a done context.
+		u.mu.Lock()
+		pending := len(u.parStarted) - len(u.parDone)
+		u.mu.Unlock()
+		if u.sndClosed || u.cancelled || !u.allDone() || pending > 0 {
+			return ""
+		}
+	direct:
+		for k := 0; k < max(m.M, 1); k++ {
+			v := u.started + 1
+			select {
+			case u.snd <- v:
+				u.started = v
+				u.mu.Lock()
+				u.completed = v
+				u.mu.Unlock()
+			default:
+				break direct
+			}
+		}
+		u.sndClosed = true
+		close(u.snd)
 	case "batch":
 		for _, s := range m.Sub {
 			if s.K == "batch" {
@@ -348,9 +372,15 @@ func runUnbound(sc *Scenario) (res Result) {
 		if !u.allDone() {
 			return fail("a send is still blocked at quiescence before the end of the stream")
 		}
-		if sc.Mode == "close" {
+		if sc.Mode == "close" || sc.Mode == "close-cancel" {
 			u.sndClosed = true
 			close(u.snd)
+			if sc.Mode == "close-cancel" {
+				// the pump has seen the close (and may be blocked delivering the backlog) when the context is cancelled
+				synctest.Wait()
+				u.cancelled = true
+				cancel()
+			}
 		} else {
 			u.cancelled = true
 			cancel()
